@@ -115,11 +115,8 @@ def deep(v):
 
 
 def ensure_budget(ctx, seconds=40, quick_scale=1.0):
-    """core.py starts the case deadline before the Lean build; after a cold or slow build no time would be left
-    and the run would 'pass' with zero cases. Guarantee the generator a minimum of wall time.
-    `quick_scale` multiplies every `ctx.n(...)` count of the quick tier (the case phase of these properties takes a
-    few seconds, almost all of a quick run is build + audit)."""
-    import time
-    ctx.deadline = max(ctx.deadline, time.time() + seconds)
+    """`quick_scale` multiplies every `ctx.n(...)` count of the quick tier (the case phase of these properties is
+    cheap). core.py now starts the case budget after build + audit, so the deadline is no longer extended here
+    (`seconds` is kept for the callers' signature only)."""
     if ctx.tier == "quick" and ctx.scale == 1.0:
         ctx.scale = quick_scale
